@@ -18,7 +18,7 @@ Definition resolve (t : table) (s : site) (p : path) (c m : string) : option (st
 
 (* one visibility probe: site, path, class (of the object / named), member, what the implementation
    did: allowed?, and for stores whether the value read back afterwards had changed *)
-Record vprobe := { v_site : site; v_ssite : site; v_path : path; v_cls : string; v_mem : string;
+Record vprobe := { v_site : site; v_ssite : site; v_smod : option modifier; v_path : path; v_cls : string; v_mem : string;
                    v_allowed : bool; v_changed : option bool }.
 (* v_site: the context the access decision function sees (for a free function called from a method: that method's
    class context, which the function's context chains to); v_ssite: where the code is WRITTEN, which is what the rule is
@@ -34,10 +34,11 @@ Definition check_v (t : table) (q : vprobe) : list nat :=
   | None => [9%nat]
   | Some (d, x) =>
       let md := match decide t (v_site q) (v_path q) (v_cls q) (v_mem q) with Allow => true | _ => false end in
-      let sp := visible t (v_ssite q) d (mb_mod x) in
+      let sm := match v_smod q with Some m => m | None => mb_mod x end in
+      let sp := visible t (v_ssite q) d sm in
       (if Bool.eqb md (v_allowed q) then [] else [1%nat]) ++
       (if v_allowed q && negb sp then [2%nat]
-       else if negb (v_allowed q) && sp then (match mb_mod x with Public => [2%nat] | _ => [6%nat] end)
+       else if negb (v_allowed q) && sp then (match sm with Public => [2%nat] | _ => [6%nat] end)
        else []) ++
       match v_changed q with
       | None => []
